@@ -2057,9 +2057,26 @@ impl<'de, 'e> de::Deserializer<'de> for YamlDeserializer<'de, 'e> {
             merge_stack: Vec<Vec<PendingEntry<'de>>>,
             flushing_merges: bool,
             pending_value: Option<(Vec<Ev<'de>>, Location)>,
+            #[cfg(serde_saphyr_verif)]
+            verif_id: u64,
         }
 
         impl<'de, 'e> MA<'de, 'e> {
+            /// Verification hook: log one step of `next_key_seed` AFTER it was taken
+            /// (see `verif_hooks::MaStep`).
+            #[cfg(serde_saphyr_verif)]
+            fn verif_step(&self, act: &'static str, out: &'static str) {
+                crate::verif_hooks::ma_step(crate::verif_hooks::MaStep {
+                    ma: self.verif_id,
+                    act,
+                    out,
+                    pending: self.pending.len(),
+                    mstack: self.merge_stack.len(),
+                    seen: self.seen.len(),
+                    flushing: self.flushing_merges,
+                });
+            }
+
             /// Skip exactly one YAML node (scalar/sequence/mapping) in the live stream.
             ///
             /// Used by:
@@ -2181,6 +2198,8 @@ impl<'de, 'e> de::Deserializer<'de> for YamlDeserializer<'de, 'e> {
                         let is_duplicate = self.seen.contains(&fingerprint);
                         if self.flushing_merges {
                             if is_duplicate {
+                                #[cfg(serde_saphyr_verif)]
+                                self.verif_step("KP", "skip");
                                 continue;
                             }
                         } else {
@@ -2190,11 +2209,15 @@ impl<'de, 'e> de::Deserializer<'de> for YamlDeserializer<'de, 'e> {
                                         let key = fingerprint
                                             .stringy_scalar_value()
                                             .map(|s| s.to_owned());
+                                        #[cfg(serde_saphyr_verif)]
+                                        self.verif_step("KP", "dup");
                                         return Err(Error::DuplicateMappingKey { key, location });
                                     }
                                 }
                                 DuplicateKeyPolicy::FirstWins => {
                                     if is_duplicate {
+                                        #[cfg(serde_saphyr_verif)]
+                                        self.verif_step("KP", "skip");
                                         continue;
                                     }
                                 }
@@ -2289,14 +2312,20 @@ impl<'de, 'e> de::Deserializer<'de> for YamlDeserializer<'de, 'e> {
                         }
 
                         self.seen.insert(fingerprint);
+                        #[cfg(serde_saphyr_verif)]
+                        self.verif_step("KP", "yield");
                         return Ok(Some(key_value));
                     }
 
                     if self.flushing_merges {
                         if self.enqueue_next_merge_batch() {
+                            #[cfg(serde_saphyr_verif)]
+                            self.verif_step("FL", "batch");
                             continue;
                         }
                         self.flushing_merges = false;
+                        #[cfg(serde_saphyr_verif)]
+                        self.verif_step("FL", "done");
                         return Ok(None);
                     }
 
@@ -2304,13 +2333,21 @@ impl<'de, 'e> de::Deserializer<'de> for YamlDeserializer<'de, 'e> {
                         Some(Ev::MapEnd { .. }) => {
                             let _ = self.ev.next()?; // consume end
                             if self.merge_stack.is_empty() {
+                                #[cfg(serde_saphyr_verif)]
+                                self.verif_step("KL", "end");
                                 return Ok(None);
                             }
                             self.flushing_merges = true;
+                            #[cfg(serde_saphyr_verif)]
+                            self.verif_step("KL", "end-flush");
                             if self.enqueue_next_merge_batch() {
+                                #[cfg(serde_saphyr_verif)]
+                                self.verif_step("FL", "batch");
                                 continue;
                             }
                             self.flushing_merges = false;
+                            #[cfg(serde_saphyr_verif)]
+                            self.verif_step("FL", "done");
                             return Ok(None);
                         }
                         Some(_) => {
@@ -2328,6 +2365,8 @@ impl<'de, 'e> de::Deserializer<'de> for YamlDeserializer<'de, 'e> {
                                 if !entries.is_empty() {
                                     self.merge_stack.push(entries);
                                 }
+                                #[cfg(serde_saphyr_verif)]
+                                self.verif_step("KL", "merge");
                                 continue;
                             }
 
@@ -2341,12 +2380,16 @@ impl<'de, 'e> de::Deserializer<'de> for YamlDeserializer<'de, 'e> {
                                             .fingerprint()
                                             .stringy_scalar_value()
                                             .map(|s| s.to_owned());
+                                        #[cfg(serde_saphyr_verif)]
+                                        self.verif_step("KL", "dup");
                                         return Err(Error::DuplicateMappingKey { key, location });
                                     }
                                 }
                                 DuplicateKeyPolicy::FirstWins => {
                                     if is_duplicate {
                                         self.skip_one_node()?;
+                                        #[cfg(serde_saphyr_verif)]
+                                        self.verif_step("KL", "skip");
                                         continue;
                                     }
                                 }
@@ -2394,6 +2437,8 @@ impl<'de, 'e> de::Deserializer<'de> for YamlDeserializer<'de, 'e> {
                                     reference_location,
                                     key_reference_location,
                                 }]);
+                                #[cfg(serde_saphyr_verif)]
+                                self.verif_step("KL", "kemn");
                                 continue;
                             } else {
                                 // Fast path: deserialize key now from recorded events, do not buffer value.
@@ -2437,6 +2482,8 @@ impl<'de, 'e> de::Deserializer<'de> for YamlDeserializer<'de, 'e> {
                                 }
 
                                 self.seen.insert(fingerprint);
+                                #[cfg(serde_saphyr_verif)]
+                                self.verif_step("KL", "yield");
                                 return Ok(Some(key_value));
                             }
                         }
@@ -2578,6 +2625,8 @@ impl<'de, 'e> de::Deserializer<'de> for YamlDeserializer<'de, 'e> {
             merge_stack: Vec::new(),
             flushing_merges: false,
             pending_value: None,
+            #[cfg(serde_saphyr_verif)]
+            verif_id: crate::verif_hooks::ma_new_id(),
         })
     }
 
